@@ -29,11 +29,17 @@ package index
 //@   flag only_for=index.(*contentProvider).score
 //@   assigns p._nl, p._nlBuf, p.err, p.stats.ContentBytesLoaded
 
+//@ func index.sumTermFrequencyScores
+//@   may_panic
+//@   loop 1:
+//@     invariant freqs == nil || fresh(freqs)
+//@   loop 2:
+//@     invariant true
+//@   assigns nothing
+
 //@ func index.(*contentProvider).scoreLineBM25
 //@   may_panic
 //@   loop 1:
-//@     invariant true
-//@   loop 2:
 //@     invariant symbolInfo == nil || len(symbolInfo) == len(ms)
 //@   ensures result1 == nil || len(result1) == len(ms)
 
